@@ -11,7 +11,7 @@ from kern2 import Snap, area2, cross3, fr_tok
 
 SPEC = {
     "lean_modules": ["Honeycomb.Props.C13", "Honeycomb.Props.C13b", "Honeycomb.Props.C13c", "Honeycomb.Props.C13d",
-                     "Honeycomb.Props.C13e"],
+                     "Honeycomb.Props.C13e", "Honeycomb.Props.C13f"],
     "required_theorems": ["C13_check_requirements_ok_iff", "C13_shoelace_step", "C13_earclip_area_sum",
                           "C13_fan_area_sum", "C13_fan_star_sees_every_side", "C13_fan_apex_sees_all",
                           "C13_earclip_preserves_WF", "C13_fan_preserves_WF", "C13_fan_convex_preserves_WF",
@@ -24,7 +24,11 @@ SPEC = {
                           "C13_earclip_triangles_carry_list_coordinates", "C13_earclip_area_conserved_in_map",
                           "C13_earclip_orientation_in_map", "C13_earclip_ccw_orientation_in_map",
                           "C13_earclip_cw_orientation_in_map", "C13_earclip_old_vertices_keep_coordinates",
-                          "C13_fan_accepts_convex_ccw", "C13_fan_accepts_convex_cw"],
+                          "C13_fan_accepts_convex_ccw", "C13_fan_accepts_convex_cw",
+                          "C13_earclip_all_triangles_oriented_partial", "C13_earclip_ccw_all_triangles_oriented_partial",
+                          "C13_earclip_last_triangle_needs_simplicity_witness",
+                          "C13_earclip_ok_implies_spares_free", "C13_fan_ok_implies_spares_free",
+                          "C13_fan_convex_ok_implies_spares_free", "C13_stale_spare_value_moves_a_corner_witness"],
     "trusted_base": [
         "Lean 4.33 kernel; axioms propext, Classical.choice, Quot.sound only",
         "hand-written model Honeycomb/Model/Kernels/{Geom2,Fan,EarClip}.lean (+ Stm, Map, Ops, Ops2) tied to /repo by the "
@@ -45,7 +49,8 @@ SPEC = {
         "EarsNotLast from C13_earclip_structure and needs an orientation test that rejects triples with equal end points (true of "
         "both public tests, insideCCW_ends_differ / insideCW_ends_differ: a vanishing cross product is never accepted)",
         "fan WF/structure theorems: the face is a closed beta1-cycle (necessary: on an open chain the final 1-sew can write beta1(0))",
-        "spare darts are distinct free in-use darts",
+        "spare darts are distinct free in-use darts WITHOUT a vertex value under their id (fresh); see not_proved for what happens "
+        "otherwise",
     ],
     "rule": "polygons with 3..10 sides on the 1/4 lattice: strictly convex, star-shaped from one vertex (star vertex at every index), convex "
             "with one vertex pushed in (reflex vertex at every index), centroid-star and 2-opt random simple polygons; both orientations; "
@@ -55,7 +60,9 @@ SPEC = {
             "ok => n-2 closed triangles on the face darts + spares, every side keeps its end points and beta2, every dart outside keeps "
             "all its images, all coordinates read at vertex ids unchanged, every triangle strictly oriented like the polygon, signed areas "
             "add up, wf; err => map unchanged; ear clipping must accept simple polygons in general position of the announced "
-            "orientation, fan must accept strictly convex ones. distinct_nontrivial = distinct implementation transcripts.",
+            "orientation, fan must accept strictly convex ones; for the ear-clipping kernels the decidable hypotheses of the Lean "
+            "theorems (EarsNotLast, LastOK) are recomputed on the vertex list of every such polygon and must hold. "
+            "distinct_nontrivial = distinct implementation transcripts.",
     "not_proved": [
         "ear clipping succeeds on every simple polygon in general position (needs the two-ears theorem; sampled only)",
         "exact face structure after ear clipping is proved (C13_earclip_structure: n-2 listed triangles, each a closed beta1 3-cycle, "
@@ -65,12 +72,23 @@ SPEC = {
         "that the triangles of the map surgery carry the coordinates of the vertex-list triangles is PROVED for all kernels with "
         "fresh spare darts (C13_fan_*_in_map / C13_fan_triangles_carry_list_coordinates / "
         "C13_fan_convex_triangles_carry_list_coordinates; C13_earclip_triangles_carry_list_coordinates, "
-        "C13_earclip_area_conserved_in_map, C13_earclip_orientation_in_map, C13_earclip_old_vertices_keep_coordinates); NOT proved "
-        "for spare darts that already carry links or a vertex value",
-        "the last remaining triangle of ear clipping has the announced orientation: the code does not test it; "
-        "C13_earclip_orientation_in_map proves, in the result map, that every CLIPPED ear passes the announced test and that the "
-        "last triangle's doubled area is the polygon's minus the ears' — its sign follows on a simple polygon of the announced "
-        "orientation, which is not proved",
+        "C13_earclip_area_conserved_in_map, C13_earclip_orientation_in_map, C13_earclip_old_vertices_keep_coordinates). Spare "
+        "darts that are not fresh (Props/C13f.lean): the kernels only check their NUMBER; a spare dart that carries a LINK makes the "
+        "call fail in the link core that tests it (proved as: Ok => every spare dart was free, C13_*_ok_implies_spares_free for the "
+        "three kernels; nothing is published, C06); a FREE spare dart that carries a stale VERTEX VALUE is not refused and the value "
+        "is averaged into a polygon corner (C13_stale_spare_value_moves_a_corner_witness: Ok, corner (4,4) -> (7,7), areas no longer "
+        "add up; the implementation does the same, replay: pentagon + `wv 6 10 10` + `fan 1 4 6 7 8 9`) — so the property's "
+        "precondition 'the right number of spare darts' has to mean FRESH darts (free and valueless); the generators of this check "
+        "only produce fresh spare darts",
+        "the last remaining triangle of ear clipping has the announced orientation: the code does not test it and it is NOT a "
+        "consequence of the ear tests (C13_earclip_last_triangle_needs_simplicity_witness: a self-crossing quadrilateral of positive "
+        "area whose accepted ear leaves a clockwise triangle) — it needs the simplicity of the polygon (Jordan-type argument, not "
+        "proved). Proved instead: C13_earclip_orientation_in_map (every CLIPPED ear passes the test in the result map; the last "
+        "triangle's doubled area is the polygon's minus the ears') and C13_earclip_all_triangles_oriented_partial: under the "
+        "decidable list condition LastOK all n-2 triangles of the result map pass the test. LastOK and EarsNotLast are evaluated by "
+        "this check's oracle (list_earclip) on every generated simple polygon in general position of the announced orientation and "
+        "reported as violations (last-ok-false / ears-not-last-false) if ever false; counts in "
+        "stats.earclip_list_conditions_on_simple_polygons",
         "the first side examined by the fan's star search is only sign-tested by the code: C13_fan_test_iff states exactly what is "
         "guaranteed, C13_fan_first_side_weak_witness shows a degenerate first triangle is accepted; the strict-orientation theorem "
         "C13_fan_apex_sees_all therefore carries 'no side collinear with the apex' as a hypothesis",
@@ -247,6 +265,39 @@ def parse_op(toks):
     return kern, int(toks[1]), [int(x) for x in toks[3:3 + k]]
 
 
+def list_earclip(P, ccw):
+    """the vertex-list computation of the ear-clipping kernels, as the Lean model has it (findEar / earclipTriangles /
+    EarsNotLast / LastOK of Props/C13.lean, C13c.lean, C13e.lean): the first index whose corner passes the orientation test
+    with every other vertex (different from the three corners as a point) strictly outside, `remove((ear + 1) % n)`, until
+    three vertices are left.  Returns (ears, last, ears_not_last, last_ok) or None when some search finds no ear."""
+    def inside(a, b, c):
+        x = cross3(a, b, c)
+        return x > 0 if ccw else x < 0
+
+    def strictly_outside(a, b, c, v):
+        sg = (cross3(a, b, v), cross3(b, c, v), cross3(c, a, v))
+        return any(x > 0 for x in sg) and any(x < 0 for x in sg)
+
+    vs, ears, not_last = list(P), [], True
+    while len(vs) > 3:
+        n, ear = len(vs), None
+        for i in range(n):
+            a, b, c = vs[i], vs[(i + 1) % n], vs[(i + 2) % n]
+            if inside(a, b, c) and all(strictly_outside(a, b, c, v) for v in vs if v != a and v != b and v != c):
+                ear = i
+                break
+        if ear is None:
+            return None
+        if ear + 1 >= n:
+            not_last = False
+        ears.append((vs[ear], vs[(ear + 1) % n], vs[(ear + 2) % n]))
+        del vs[(ear + 1) % n]
+    return ears, tuple(vs), not_last, inside(*vs)
+
+
+LIST_STATS = {}
+
+
 def judge(before, res, after, wfline, kern, fd, spares):
     """(items, info): failures [(tag, detail)] and facts about the case used by the matcher"""
     items, info = [], {}
@@ -298,6 +349,17 @@ def judge(before, res, after, wfline, kern, fd, spares):
         if res == "ok" and wfline != "wf true true true":
             items.append(("wf-lost", wfline))
         return items, info
+    # ---- the decidable hypotheses of the Lean theorems on the vertex list (C13_earclip_structure: EarsNotLast;
+    #      C13_earclip_all_triangles_oriented_partial: LastOK), evaluated on every simple polygon in general position of the
+    #      announced orientation: they are expected to hold there (two-ears / Jordan arguments, not proved)
+    if kern in ("earccw", "earcw"):
+        le = list_earclip(P, kern == "earccw")
+        key = "no-ear" if le is None else ("last_ok=%s ears_not_last=%s" % (le[3], le[2]))
+        LIST_STATS[key] = LIST_STATS.get(key, 0) + 1
+        if le is not None and not le[3]:
+            items.append(("last-ok-false", f"LastOK is false on a simple polygon in general position: last triangle {le[1]}"))
+        if le is not None and not le[2]:
+            items.append(("ears-not-last-false", "EarsNotLast is false on a simple polygon in general position"))
     # ---- must-succeed clauses
     if res != "ok":
         if kern == "earccw" and o > 0 or kern == "earcw" and o < 0:
@@ -590,6 +652,7 @@ def block_cases(rng, count):
 def run(tier, seed):
     rng = random.Random(seed)
     STATS.clear()
+    LIST_STATS.clear()
     per = 10 if tier == "quick" else 80
     parts = []
     parts.append(("directed witnesses (D7 pentagon, unit squares)", hv.campaign(directed_cases(), oracle_c13, max_report=50)))
@@ -607,6 +670,7 @@ def run(tier, seed):
                   hv.campaign(c08.tri_programs(800 if tier == "quick" else 8000, rng), c08.oracle_c08k, max_report=20)))
     res = hv.merge_results(parts)
     res["stats"]["by_family_kernel_outcome"] = {"/".join(k): v for k, v in sorted(STATS.items())}
+    res["stats"]["earclip_list_conditions_on_simple_polygons"] = dict(sorted(LIST_STATS.items()))
     res["violations"] = dedupe(res["violations"])
     return res
 
